@@ -1,6 +1,57 @@
 #!/usr/bin/env python3
-import os, sys
+import os, sys, re
 sys.path.insert(0, os.path.dirname(os.path.abspath(__file__)))
 import _core_check
-_core_check.main('C02', ['the Gallina model of update/resolve is tied to /repo by differential runs of harness H1 (all internals and every legal tuple) on generated registries',
-                         'virtual inheritance is invisible at the registry level: only the base relation matters (argument adjustment is C11)'])
+from _core_check import vlib, corelib, coresuite
+
+ctx = vlib.Ctx('C02')
+if ctx.replay:
+    _core_check.replay(ctx); sys.exit(0)
+vlib.proof_phase(ctx)
+res = coresuite.dispatch_suite(ctx.tier, ctx.seed)
+cov = coresuite.summarize(ctx, res, 'C02')
+if ctx.broken and not ctx.violations:
+    for extra in range(2 if ctx.tier == 'quick' else 6):
+        res2 = coresuite.dispatch_suite('thorough', ctx.seed * 1000 + 100 + extra)
+        saved = list(ctx.broken); cov2 = coresuite.summarize(ctx, res2, 'C02'); ctx.broken = saved
+        cov['search_evaluations'] = cov.get('search_evaluations', 0) + cov2['evaluations']
+        if ctx.violations: break
+
+# "if the handler returns, the program aborts rather than continuing": child processes with a handler that returns
+binp, _ = corelib.h1_binary()
+aborts = 0; tried = 0
+if binp:
+    want = 4 if ctx.tier == 'quick' else 40
+    for e in res['cases']:
+        if tried >= want: break
+        if e['crashed']: continue
+        for pol, r in e['results'].items():
+            if pol not in ('vec', 'hash', 'chk', 'map', 'ind') or not r['err_tuples']: continue
+            # find an erroring tuple of a method with a real method<> behind it, from the specification lines
+            reg = e['reg']; slots = corelib.slot_assignment(reg, corelib.shapes_of(pol))
+            mdl, _ = corelib.model_binary()
+            m = corelib.run_model(mdl, [('x', corelib.query_text('x', reg))]).get('x', [])
+            tup = None
+            for l in m:
+                mm = re.match(r'spec (\d+) ([\d ]+) = (ni|amb)$', l)
+                if mm and slots[int(mm.group(1))]:
+                    tup = (int(mm.group(1)), mm.group(2), mm.group(3)); break
+            if not tup: continue
+            text = 'case abort\nids small\n' + '\n'.join(corelib.case_lines(reg, pol)) + '\n@%s sethandler returning\n@%s callx %d %s\n@%s callx %d %s\nend\n' % (pol, pol, tup[0], tup[1], pol, tup[0], tup[1])
+            out = corelib.run_h1(binp, text)
+            r1 = out.get('abort', {'lines': [], 'crashed': False, 'stderr': ''})
+            tried += 1
+            returned = [l for l in r1['lines'] if 'handler-returned' in l]
+            after = [l for l in r1['lines'] if re.search(r'callx .*= ?(ran|error|threw)', l)]
+            status = re.search(r'\[exit status (-?\d+)\]', r1['stderr'] or '')
+            if r1['crashed'] and returned and not after and status and int(status.group(1)) in (-6, 134):
+                aborts += 1
+            else:
+                ctx.violation('the error handler returned for call %d %s (%s) and the program did not abort: crashed=%s exit=%s lines after=%s'
+                              % (tup[0], tup[1], tup[2], r1['crashed'], status.group(1) if status else None, after[:2]),
+                              {'registry': reg, 'policy': pol, 'replay_case': text})
+            break
+cov['handler_returns_abort_checked'] = tried
+cov['handler_returns_aborted'] = aborts
+vlib.finish(ctx, cov, assumptions=['the Gallina model of update/resolve is tied to /repo by differential runs of harness H1 on generated registries',
+                                   'abort after a returning handler and exception propagation are runtime behaviour: observed on child processes / in-process catches, not modelled'])
